@@ -3,6 +3,7 @@
  */
 
 #include <assert.h>
+#include <errno.h>
 #define should_not_reach_here() assert(0)
 
 #include "myth_config.h"
@@ -1472,7 +1473,9 @@ int __wrap(pthread_spin_lock)(pthread_spinlock_t *lock) {
   int ret;
   (void)_;
   if (myth_should_wrap_pthread()) {
-    ret = myth_spin_lock_body((myth_spinlock_t *)lock);
+    /* myth_spin_lock_body returns the number of failed attempts */
+    myth_spin_lock_body((myth_spinlock_t *)lock);
+    ret = 0;
   } else {
     ret = real_pthread_spin_lock(lock);
   }
@@ -1486,7 +1489,8 @@ int __wrap(pthread_spin_trylock)(pthread_spinlock_t *lock) {
   int ret;
   (void)_;
   if (myth_should_wrap_pthread()) {
-    ret = myth_spin_trylock_body((myth_spinlock_t *)lock);
+    /* myth_spin_trylock_body returns 1 on success, 0 on failure */
+    ret = myth_spin_trylock_body((myth_spinlock_t *)lock) ? 0 : EBUSY;
   } else {
     ret = real_pthread_spin_trylock(lock);
   }
